@@ -77,10 +77,43 @@ def gen_script(rnd, tier):
             L.append("q %d" % i)
         if rnd.random() < 0.5:
             L.append("q %d" % rnd.randint(1, n))
+    if rnd.random() < 0.35:
+        # a re-loaded twin (equal name and module, another object) replaces a base of its only dependent, then gets bases
+        # of its own that define further names / tags / invariants (restrictions as in C02's scenario)
+        cands = [(x, ch) for x in range(1, n + 1) for ch in range(1, n + 1) if x in ib[ch] and sum(1 for d in ib if x in ib[d]) == 1]
+        rnd.shuffle(cands)
+        for x, ch in cands[:3]:
+            t = n + 1
+            b2 = dict(ib)
+            b2[t] = [0]
+            b2[ch] = [t if b == x else b for b in ib[ch]]
+            down = {j for j in b2 if ch in c03.reach(b2, j)}
+            if not all(c03.cpython_mirror_mro(b2, j) is not None for j in down):
+                continue
+            pool = [j for j in range(1, n + 1) if j not in down and j != x and j not in c03.reach(b2, x) and x not in c03.reach(b2, j)]
+            L.append("twin %d %d %s %s %s" % ((t, x) + members()))
+            L.append("get %d %s" % (ch, rnd.choice(NAMES)))
+            L.append("set %d %s" % (ch, ",".join(map(str, b2[ch]))))
+            ib.update(b2)
+            for i in sorted(down):
+                L.append("q %d" % i)
+            for _ in range(6):
+                bs = rnd.sample(pool, min(len(pool), rnd.choice([1, 1, 2])))
+                b3 = dict(ib)
+                b3[t] = bs or [0]
+                if bs and all(c03.cpython_mirror_mro(b3, j) is not None for j in down | {t}):
+                    ib[t] = bs
+                    L.append("set %d %s" % (t, ",".join(map(str, bs))))
+                    for i in sorted(down):
+                        L.append("q %d" % i)
+                        L.append("get %d %s" % (i, rnd.choice(NAMES)))
+                    break
+            break
     return L
 
 
 def oracle(chk, lines, outs):
+    lines = [("iface %s - %s" % (l.split()[1], " ".join(l.split()[3:])) if l.startswith("twin ") else l) for l in lines]
     bad = []
     for i, (line, out) in enumerate(zip(lines, outs)):
         f = line.split()
